@@ -84,6 +84,8 @@ func (p *Program) verifyFuncWith(key string, forceSafety bool, extraTags []strin
 		f.freeVars[fv] = Val{n, "Int"}
 	}
 	vc.assume(fmt.Sprintf("(> %s 0)", vc.get(st, "next")))
+	vc.regComp("Own_SendCnt", "Int")
+	st.comp["Own_SendCnt"] = "0"
 	f.entry = st.clone()
 	// implicit lock preconditions: locks this function takes on its parameters are free at entry
 	for _, il := range p.implicitLocks(fn) {
@@ -371,7 +373,7 @@ func (f *Frame) frameObligations(ct *FuncContract, final *State, g string) {
 }
 
 func isGhostComp(c string) bool {
-	for _, p := range []string{"Base_", "Held_", "Defer_", "Visited_", "Spawn_", "SpawnArg_", "Bind_", "SentCnt_", "SentVal_"} {
+	for _, p := range []string{"Own_", "Ghost_", "Base_", "Held_", "Defer_", "Visited_", "Spawn_", "SpawnArg_", "Bind_", "SentCnt_", "SentVal_"} {
 		if strings.HasPrefix(c, p) {
 			return true
 		}
